@@ -774,6 +774,9 @@ func execRun(spec *C11Run, rl *raceLog) (res runResult) {
 	close(done)
 	close(end)
 	wg.Wait()
+	if n, site := verifsim.UnownedEvents(); n > 0 {
+		fatal(2, "library code spawned %d goroutine(s) inside a simulated operation (at %s): the simulator does not own that schedule (DESIGN.md section 9); refusing to give a verdict, run seed %d", n, siteName(site), spec.Seed)
+	}
 	// ---- collect ----
 	log, nlog := verifsim.Log()
 	if nlog > len(log) {
